@@ -7,6 +7,7 @@ for f in selftest/mutants/${1:-*}.patch; do
   n=$(basename $f .patch); p=${n%%-*}
   out=$(selftest/run_mutant.sh $f $p 2>&1); rc=$?
   cls=$(echo "$out" | grep -o "minimised replay: [^|]*" | sed 's/minimised replay: //' | sort -u | tr '\n' ' ')
+  first=$(echo "$out" | grep -o "^VIOLATION.*replays/[^ ]*" | sed 's/.*-\([0-9]*\)\.json/\1/' | sort -n | head -1)
   case $rc in 1) v=CAUGHT;; 0) v=MISSED;; *) v="rc=$rc";; esac
-  printf "%-50s %-8s %s\n" "$n" "$v" "$cls"
+  printf "%-50s %-8s first_index=%-8s %s\n" "$n" "$v" "${first:--}" "$cls"
 done
